@@ -23,7 +23,14 @@ def _load():
     d = os.path.join(os.path.dirname(os.path.dirname(os.path.abspath(__file__))), 'checks')
     for f in sorted(glob.glob(os.path.join(d, 'C*.json'))):
         c = json.load(open(f))
-        CHECKS[c['property_id']] = c
+        pid = c['property_id']
+        if pid in CHECKS:  # several files may contribute parts to one property (C15.server.json, C15.client.json)
+            CHECKS[pid]['parts'].extend(c.get('parts', []))
+            CHECKS[pid].setdefault('assumptions', []).extend(c.get('assumptions', []))
+            for t, v in c.get('deadline', {}).items():
+                CHECKS[pid].setdefault('deadline', {})[t] = max(CHECKS[pid].get('deadline', {}).get(t, 0), v)
+        else:
+            CHECKS[pid] = c
 
 
 _load()
